@@ -9,24 +9,33 @@ TRUST = ("Lean 4.33 kernel; axioms at most propext/Classical.choice/Quot.sound (
          "hand-written model tied to the C++ by the correspondence harness (differential, exact, generator-bounded); ")
 MANIFEST = dict(
   text=("Theorems (Props/C17.lean) about the executable model of IterativeNNQuery (trace tree with NONE/PARTIAL/COMPLETE marks, "
-        "leaf queue with distance + address-rank order, squaredRadius, head pointer), for EVERY tree shape, every admissible "
-        "lower-bound function, every query and every number of next() calls: squaredRadius is a lower bound on the distance of "
-        "every point not yet queued (radius_is_lower_bound); under LeafUniform (each leaf holds copies of one point - the header's "
-        "documented precondition) the i-th call of next() returns a not yet returned point together with its true squared distance, "
-        "which is minimal among all points not yet returned (next_returns_min), hence the first k results have exactly the k smallest "
-        "distances of exhaustive search, in non-decreasing order (tree_knn_eq_bruteforce, all k <= n); a decide-checked witness shows "
-        "the model - like the real code, finding K1 - is wrong without LeafUniform (next_wrong_without_leafuniform); kd-tree "
-        "construction: split_separates, indexList_perm, kd_bound_admissible; NearestNeighborModel: nn_model_backend_independent. "
-        "The model is tied to the real code by an exact line-by-line correspondence (full query state after every next(): radius, "
-        "queue size, head, all trace marks; kd construction incl. thresholds; kNN lists; model predictions) on generated integer "
-        "point sets (1-6 dim, duplicates, collinear, points on split planes, far queries), KDTree/LCTree/KHCTree, bucket sizes 1-4, "
-        "depth limits, all k, plus an independent brute-force oracle in the harness."),
-  note=TRUST + "floating point: all compared quantities are exact on integer points (squared distances; reported sqrt compared through "
-       "its square); LC/KHC tree geometry (normals, thresholds) is not modelled - their real per-query lower bounds and isLeft "
-       "decisions are fed to the model and their admissibility is checked exactly on every generated query; the order "
-       "std::nth_element leaves inside a leaf and the heap-address tie-break are adopted from the real tree. "
-       "Known findings reported by this check: K1 (bucket size > 1), L1 (LC/KHC trees on duplicate points), S1 (exhaustive back-end "
-       "reports squared distances).",
+        "leaf queue ordered by leaf distance + address rank, squaredRadius, head pointer, nextIndex), for EVERY tree shape, every "
+        "admissible lower-bound function, every query and every number of next() calls: squaredRadius never exceeds the distance of a "
+        "point not yet queued (radius_is_lower_bound, needs admissible bounds only); under LeafUniform (each leaf holds copies of one "
+        "point - the header's documented precondition) the first k calls of next(), for every k <= n, return k distinct points with "
+        "their TRUE squared distances, each minimal among the points not yet returned, no point lost (next_returns_min), distances "
+        "non-decreasing (next_distances_nondecreasing), and equal to the k smallest distances of exhaustive search in order "
+        "(tree_knn_eq_bruteforce); a kernel-decided witness shows the model - like the real code, known finding K1 - reports wrong "
+        "distances and a wrong order without LeafUniform although bounds are admissible (next_wrong_without_leafuniform, "
+        "k1Tree_hypotheses); kd-tree construction keeps the index list a permutation of 0..n-1 for all bucket sizes/depth limits "
+        "(indexList_perm, split_partitions); NearestNeighborModel votes, soft output (any distance weights) and predicted class "
+        "depend only on the multiset of (distance,label) neighbours (nn_model_backend_independent). "
+        "NOT proved, covered by the correspondence only: split_separates and kd_bound_admissible (that the kd construction yields "
+        "admissible bounds) - instead the driver checks exactly, on every generated real tree and query, that every bound is "
+        "admissible and that the model's kd thresholds/cut dimensions/bounds equal the real ones. "
+        "Correspondence (exact, line by line): full query state after every next() (reported squared distance and index, radius, "
+        "queue size, neighbours counter, nextIndex, head, all trace marks), kd construction (shape, cut dimensions, thresholds, leaf "
+        "index sets), kNN lists of TreeNearestNeighbors and SimpleNearestNeighbors, NearestNeighborModel decisions with both "
+        "back-ends (uniform: exact; 1/distance: same IEEE operations in the driver), on generated integer point sets (1-6 dim, "
+        "duplicates, collinear, points on split planes, far queries), KDTree/LCTree/KHCTree(linear kernel), bucket sizes 1-4, depth "
+        "limits, all k (every query is run for n calls), plus an independent brute-force oracle in the harness (ASan/UBSan)."),
+  note=TRUST + "all compared quantities are exact on integer points (squared distances; the reported sqrt is compared through its "
+       "square with the nearest-double rule); LC/KHC tree geometry (normals, thresholds) is not modelled - their real per-query "
+       "lower bounds and isLeft decisions are fed to the model and their admissibility is checked exactly per query; the order "
+       "std::nth_element leaves inside a leaf and the heap-address tie-break are adopted from the real tree (harness annotation, "
+       "tools/c17_drv.py). LeafUniform and admissibility are hypotheses of next_returns_min; the property as stated also quantifies "
+       "over bucket sizes > 1, where the real code is wrong (known finding K1, reported by this check with a replay). "
+       "Findings T1, R1, L1, S1 found by this check were fixed in /repo; their inputs stay in corpus/C17.",
   technique="Lean 4 invariant proof over the query state machine (all trees, all histories) + exact differential correspondence with the C++ (ASan/UBSan) + brute-force oracle",
   design="§6 C17")
 
@@ -302,9 +311,9 @@ def run(ctx):
     for gname, cs in groups:
         correspond(ctx, f"K-C17[{gname}]", cs, hcmd, dcmd)
     shutil.rmtree(ANNOT, ignore_errors=True)
-    ctx.sample({"theorems": ["radius_is_lower_bound", "next_returns_min", "tree_knn_eq_bruteforce",
-                             "next_wrong_without_leafuniform", "kd_bound_admissible", "split_separates",
-                             "indexList_perm", "nn_model_backend_independent"]})
+    ctx.sample({"theorems": ["radius_is_lower_bound", "next_returns_min", "next_distances_nondecreasing",
+                             "tree_knn_eq_bruteforce", "next_wrong_without_leafuniform", "k1Tree_hypotheses",
+                             "indexList_perm", "split_partitions", "nn_model_backend_independent"]})
 
 
 def replay(ctx, rep):
